@@ -393,9 +393,9 @@ def check_manager(case):
 
 
 SUBCHECKS = [
-    Sub("routing", check_routing, strategy=lambda tier: routing_case(), quick=3000, thorough=60000,
+    Sub("routing", check_routing, strategy=lambda tier: routing_case(), quick=6000, thorough=240000,
         min_share={"swap": 0.3, "filter": 0.3, "nontrivial": 0.05}),
     Sub("splitter", check_splitter, enumerate=splitter_cases, note="all residue lengths 1..40 x 1..40 x 3 offset pairs"),
-    Sub("protein", check_protein, strategy=lambda tier: protein_case(), quick=500, thorough=10000),
-    Sub("manager", check_manager, strategy=lambda tier: manager_case(), quick=200, thorough=4000),
+    Sub("protein", check_protein, strategy=lambda tier: protein_case(), quick=1000, thorough=40000),
+    Sub("manager", check_manager, strategy=lambda tier: manager_case(), quick=400, thorough=16000),
 ]
